@@ -98,6 +98,23 @@ def compiled_patterns():
     return out
 
 
+def _deb_operators_by_behaviour():
+    """the relation texts that `debian.eval_constraint` evaluates (asked of the function: where it keeps its table, and in
+    which order, is nobody's business); sorted"""
+    try:
+        from univers.debian import eval_constraint as f
+    except Exception:  # noqa: BLE001
+        return None
+    out = []
+    for op in ("<<", "<=", "=", ">=", ">>", "<", ">", "==", "!=", "<>", "~", "^", "lt", "le", "eq", "ge", "gt", "ne", "", " ", "=<", "=>", "<<<", ">>>", "*"):
+        try:
+            f("1", op, "2")
+            out.append(op)
+        except Exception:  # noqa: BLE001
+            pass
+    return sorted(out) or None
+
+
 def _brackets_by_behaviour():
     """what `split_req_bracket_notation` makes of each bracket in front of, and behind, a version: asked of the function
     itself (where the tables live and what they are called is nobody's business); sorted by the bracket"""
@@ -166,7 +183,7 @@ def generate():
     if front is None:
         front = _literal_assign(vrange, "comparators_front") or {}
         rear = _literal_assign(vrange, "comparators_rear") or {}
-    deb_ops = _dict_keys(debian, "operators") or []
+    deb_ops = _deb_operators_by_behaviour() or sorted(_dict_keys(debian, "operators") or [])
     sites = regex_sites()
     comp = compiled_patterns()
     pair = lambda a, b: "(%s, %s)" % (a, b)  # noqa: E731
@@ -192,7 +209,7 @@ def legacyOpensslBases : List String := {llist([lstr(b) for b in bases])}
 def snykBracketFront : List (String × String) := {llist([pair(lstr(k), lstr(v)) for k, v in front.items()])}
 def snykBracketRear : List (String × String) := {llist([pair(lstr(k), lstr(v)) for k, v in rear.items()])}
 
-/-- keys of `operators` in `univers.debian.Version.compare` -/
+/-- the relation texts that `univers.debian.eval_constraint` evaluates, sorted (read by behaviour) -/
 def debOperators : List String := {llist([lstr(str(k)) for k in deb_ops])}
 
 /-- every `re.<f>(pattern, …)` call of the library: (file, enclosing scope, f, source text of the pattern) -/
